@@ -449,15 +449,17 @@ class Interp:
         if p in st.vars:
             return [(st.vars[p], st)]
         # namespace-scope constants
-        qn = self.tu.qn.get(rid)
-        if qn in self.prog.consts and isinstance(self.prog.consts[qn], int):
-            return [(VInt(self.prog.consts[qn]), st)]
+        # the declaration this translation unit sees comes first: constants of unnamed namespaces have the same
+        # qualified name in every file (`(anon)::fixed_length`), so the program-wide table must not decide them
         d = self.tu.ids.get(rid)
-        if d is not None and d.get('kind') == 'VarDecl' and d.get('constexpr'):
+        if d is not None and d.get('kind') == 'VarDecl' and (d.get('constexpr') or (d.get('type') or '').startswith('const ')):
             from .program import literal_value
             lv = literal_value(d)
             if isinstance(lv, int) and not isinstance(lv, bool):
                 return [(VInt(lv), st)]
+        qn = self.tu.qn.get(rid)
+        if qn in self.prog.consts and isinstance(self.prog.consts[qn], int) and '(anon)' not in (qn or ''):
+            return [(VInt(self.prog.consts[qn]), st)]
         return [(self.load(p, n, st), st)]
 
     def ev_MemberExpr(self, n, st):
